@@ -936,10 +936,10 @@ func (s *StoreSim) ShortBlocks(idx int, thorough bool) (*Violation, *StoreCase) 
 // length" are statements about growth. Records with N, 4N, 16N ... elements
 // are decoded (valid and damaged) and the cost per input byte must not grow.
 
-var scaleTypes = []string{"Tree", "Nest", "NestD", "[][]int", "map[string][]int", "[]Inner", "[]string", "[]int", "[][]byte", "[]*Node", "MapSI", "MapKS", "MapKV", "Wide", "JDoc", "V2", "[]float64", "Maps", "MTarget", "SymBox", "Node", "RootA"}
+var scaleTypes = []string{"Tree", "MapTree", "Nest", "NestD", "[][]int", "map[string][]int", "[]Inner", "[]string", "[]int", "[][]byte", "[]*Node", "MapSI", "MapKS", "MapKV", "Wide", "JDoc", "V2", "[]float64", "Maps", "MTarget", "SymBox", "Node", "RootA"}
 
 // chainTypes are probed as deep chains instead of wide containers.
-var chainTypes = map[string]bool{"Tree": true, "RA": true}
+var chainTypes = map[string]bool{"Tree": true, "RA": true, "MapTree": true}
 
 type scalePoint struct {
 	steps   int
